@@ -488,6 +488,10 @@ func genC20pass(r *Run) int {
 				nm := string([]byte{byte('a' + r.Rng.Intn(26)), byte('a' + r.Rng.Intn(26))})
 				odd = append(odd, nm)
 				oddW = append(append(append(oddW, 2), nm...), 0)
+				if r.Rng.Intn(3) == 0 {
+					// the absolute way of writing a name ("example.com."), a leading dot, two dots in a row: held as given
+					odd[len(odd)-1] = []string{nm + ".", "." + nm, nm + ".." + nm, nm + ".example.com."}[r.Rng.Intn(4)]
+				}
 			}
 		}
 		lo := &rfc1035label.Labels{Labels: append([]string{}, odd...)}
